@@ -16,6 +16,7 @@ structure Script where
   doneAt   : List Nat            -- agent a is done  iff  t ≥ doneAt[a]
   finishAt : Nat                 -- get_all_done()   iff  t ≥ finishAt
   noms     : List (List Aid)     -- nomination at time t (0 = after reset); beyond: everybody
+  undoneAt : List Nat := []      -- agent a stops being done again at t ≥ undoneAt[a] (a "revive"); default never
 deriving Repr
 
 structure StubSt where
@@ -40,7 +41,7 @@ def stubSim (sc : Script) : SimIface StubSt Int (List Int) (List Int) where
              pend := (List.range sc.n).map (fun a => s.pend.getD a 0 + stubAccr a t' (acts.lookup a)) }
   obs := fun s a => ([(s.ep : Int), s.t, a, s.reads.getD a 0], { s with reads := bump s.reads a })
   reward := fun s a => (s.pend.getD a 0, { s with pend := s.pend.set a 0 })
-  done := fun s a => decide (sc.doneAt.getD a 0 ≤ s.t)
+  done := fun s a => decide (sc.doneAt.getD a 0 ≤ s.t) && !decide (sc.undoneAt.getD a 1000000 ≤ s.t)
   allDone := fun s => decide (sc.finishAt ≤ s.t)
   info := fun s _ => [(s.t : Int)]
   next := fun s => (sc.noms[s.t]?).getD (List.range sc.n)
